@@ -245,6 +245,18 @@ def _meta(m):
     return None if m is None else json.loads(json.dumps(m))
 
 
+def _shared_coms(env, c, at, make):
+    """the Command objects of an `add` / `extend`; a trailing `{"obj": key}` makes every command with that key use
+    the SAME Command objects (a layer of gates prepared once and applied several times)"""
+    key = c[at].get("obj") if len(c) > at and isinstance(c[at], dict) else None
+    if key is None:
+        return make()
+    store = env.__dict__.setdefault("coms", {})
+    if key not in store:
+        store[key] = make()
+    return store[key]
+
+
 def exec_cmd(env: Env, c, docs: list):
     """Execute one command on the real builders; returns RESULT.  Exceptions of the builders propagate."""
     from hugr import ops, tys
@@ -285,15 +297,15 @@ def exec_cmd(env: Env, c, docs: list):
         return bind_n(c[2], b.add_op(op, *ws, metadata=_meta(c[5])))
     if k == "add":
         b = env.builder(c[1], DfBase)
-        op = build_prog_op(c[3])
-        ws = [com_wire(env, w) for w in c[4]]
-        return bind_n(c[2], b.add(ops.Command(op, ws), metadata=_meta(c[5])))
+        com = _shared_coms(env, c, 6, lambda: [ops.Command(build_prog_op(c[3]), [com_wire(env, w) for w in c[4]])])[0]
+        return bind_n(c[2], b.add(com, metadata=_meta(c[5])))
     if k == "extend":
         b = env.builder(c[1], DfBase)
         if len(c[2]) != len(c[3]):
             raise ProgError("extend: names/commands mismatch")
-        opl = [build_prog_op(o) for o, _ in c[3]]
-        coms = [ops.Command(op, [com_wire(env, w) for w in ws]) for op, (_, ws) in zip(opl, c[3])]
+        coms = _shared_coms(
+            env, c, 4, lambda: [ops.Command(build_prog_op(o), [com_wire(env, w) for w in ws]) for o, ws in c[3]]
+        )
         ns = b.extend(*coms)
         for name, n in zip(c[2], ns):
             env.n[name] = n
